@@ -174,6 +174,7 @@ func propFrontier(t *rapid.T, c *cx) {
 	}
 	cls = append(cls, tupleClasses(s.E, u)...)
 	cls = append(cls, scls, "tuple:"+verdict(err), "frontier:single")
+	cls = append(cls, purityCls()...)
 	if viaRef {
 		cls = append(cls, "points:reference")
 	} else {
@@ -235,8 +236,8 @@ var batchNear = []string{"h+1", "h*2", "-h", "v_j+1", "v_j-1", "c_j+1", "swap_di
 func propFrontierBatch(t *rapid.T, c *cx) {
 	s, scls := c.newSRS(t, 2, true)
 	e, F := s.E, c.F
-	n := rapid.IntRange(1, 8).Draw(t, "n")
-	viaRef := rapid.IntRange(0, 3).Draw(t, "viaRef") == 0
+	n := drawBatchCount(t, 8, 3, "n")
+	viaRef := rapid.IntRange(0, 3).Draw(t, "viaRef") == 0 && n < 15
 	var b btuple
 	for i := 0; i < n; i++ {
 		ck, _ := c.scalar(t, "c")
@@ -353,8 +354,12 @@ func propFrontierBatch(t *rapid.T, c *cx) {
 	}
 	m := len(b.Cs)
 	cls = append(cls, scls, "tuple:"+verdict(err), "frontier:batch", fmt.Sprintf("batch:%d", m), "hash:"+hname)
+	cls = append(cls, purityCls()...)
 	if m >= 2 {
 		cls = append(cls, "batch>=2")
+	}
+	if m >= 16 {
+		cls = append(cls, "batch>=16")
 	}
 	if b.Z.Cmp(s.Tau) == 0 {
 		cls = append(cls, "z:tau")
@@ -377,12 +382,15 @@ func TestC11_FrontierBatch(t *testing.T) {
 func propFrontierMulti(t *rapid.T, c *cx) {
 	s, scls := c.newSRS(t, 2, true)
 	e := s.E
-	n := rapid.IntRange(1, 6).Draw(t, "n")
+	n := drawBatchCount(t, 6, 6, "n")
+	if n > 33 {
+		n = 33
+	}
 	// ½ all claims true, ¼ exactly one drawn claim not forced true, ¼ every claim drawn freely
 	// (and, for n >= 2, true claims with two errors that cancel under the combination λ = (1,…,1))
 	shape := rapid.SampledFrom([]string{"all_true", "all_true", "all_true", "one_other", "one_other", "mixed", "mixed", "cancelling_pair"}).Draw(t, "shape")
 	odd := rapid.IntRange(0, n-1).Draw(t, "odd")
-	viaRef := rapid.IntRange(0, 3).Draw(t, "viaRef") == 0
+	viaRef := rapid.IntRange(0, 3).Draw(t, "viaRef") == 0 && n < 15
 	var us []tuple
 	var cls []string
 	want := true
@@ -449,6 +457,10 @@ func propFrontierMulti(t *rapid.T, c *cx) {
 	if n >= 2 {
 		cls = append(cls, "batch>=2")
 	}
+	if n >= 16 {
+		cls = append(cls, "batch>=16")
+	}
+	cls = append(cls, purityCls()...)
 	rep.Case("C11_FrontierMulti/"+c.name, key, true, dedup(cls)...)
 }
 
